@@ -1262,6 +1262,9 @@ class SSHKey:
             return data
         elif format_name == 'openssh':
             if self._comment:
+                if b'\n' in self._comment or b'\r' in self._comment:
+                    raise KeyExportError('Comment cannot contain a newline')
+
                 comment = b' ' + self._comment
             else:
                 comment = b''
@@ -1271,6 +1274,9 @@ class SSHKey:
                     comment + b'\n')
         elif format_name == 'rfc4716':
             if self._comment:
+                if b'\n' in self._comment or b'\r' in self._comment:
+                    raise KeyExportError('Comment cannot contain a newline')
+
                 comment = (b'Comment: "' + self._comment + b'"\n')
             else:
                 comment = b''
@@ -1485,6 +1491,9 @@ class SSHCertificate:
             return wrap_base64(self.public_data, b'CERTIFICATE')
         elif format_name == 'openssh':
             if self._comment:
+                if b'\n' in self._comment or b'\r' in self._comment:
+                    raise KeyExportError('Comment cannot contain a newline')
+
                 comment = b' ' + self._comment
             else:
                 comment = b''
@@ -1494,6 +1503,9 @@ class SSHCertificate:
                     comment + b'\n')
         elif format_name == 'rfc4716':
             if self._comment:
+                if b'\n' in self._comment or b'\r' in self._comment:
+                    raise KeyExportError('Comment cannot contain a newline')
+
                 comment = (b'Comment: "' + self._comment + b'"\n')
             else:
                 comment = b''
